@@ -34,10 +34,20 @@ G1 = ["S|a|4|*", "S|b|6|*", "S|c|3|*", "S|d|5|*",
 #  e9 the slot of e1 written from the other side (b- -> a-): a+ b+ now has two candidates
 G2 = G1 + ["E|es|a+|a+|2|4$|0|2|*", "E|eh|c+|c-|1|3$|1|3$|*", "E|ea|c+|d+|0|1|4|5$|*",
            "E|e9|b-|a-|0|2|2|4$|*"]
-GRAPHS = [G1, G2]
+#  G3: a chain  d- ad- a+ ab+ b+ bc+ c+ ce+ e+  of named dovetails (segments of length 8), and
+#  UNNAMED edges (identifier "*"): two dovetails b+ -> d+ and e+ -> a+, an internal alignment a/c
+#  written twice (two E lines with the same text), a containment of d in e, and e+ -> x+, which
+#  leaves every set that does not list x
+G3 = ["S|a|8|*", "S|b|8|*", "S|c|8|*", "S|d|8|*", "S|e|8|*", "S|x|8|*",
+      "E|ab|a+|b+|6|8$|0|2|*", "E|bc|b+|c+|6|8$|0|2|*", "E|ad|a-|d+|0|2|0|2|*", "E|ce|c+|e+|6|8$|0|2|*",
+      "E|*|b+|d+|5|8$|0|3|*", "E|*|e+|a+|5|8$|0|3|*", "E|*|a+|c+|3|4|3|4|*", "E|*|a+|c+|3|4|3|4|*",
+      "E|*|d+|e+|0|8$|2|5|*", "E|*|e+|x+|6|8$|0|2|*"]
+GRAPHS = [G1, G2, G3]
 SEGS = ["a", "b", "c", "d"]
+SEGS3 = ["a", "b", "c", "d", "e"]
 EDGES = [["e1", "e2", "e3", "e4", "e5", "e6", "e7"],
-         ["e1", "e2", "e3", "e4", "e5", "e6", "e7", "es", "eh", "ea", "e9"]]
+         ["e1", "e2", "e3", "e4", "e5", "e6", "e7", "es", "eh", "ea", "e9"],
+         ["ab", "bc", "ad", "ce"]]
 GROUP_IDS = ["o", "p", "q", "u", "v", "w"]
 UNDEF = "zz"
 
@@ -54,7 +64,7 @@ class Catalogue:
     def __init__(self):
         self.items = []          # [{"id","o"}]
         self.index = {}
-        for name in SEGS + EDGES[1] + GROUP_IDS + [UNDEF]:
+        for name in SEGS3 + ["x"] + EDGES[1] + EDGES[2] + GROUP_IDS + [UNDEF]:
             for o in ("+", "-", ""):
                 self.index[name + o] = len(self.items) + 1
                 self.items.append({"id": name, "o": o})
@@ -85,8 +95,14 @@ class Catalogue:
 CAT = Catalogue()
 
 
-def slot(rt, gid, alph, lo, hi, must=()):
-    return {"rt": rt, "id": gid, "alph": list(alph), "lo": lo, "hi": hi, "must": list(must)}
+def slot(rt, gid, alph, lo, hi, must=(), seqs=()):
+    return {"rt": rt, "id": gid, "alph": list(alph), "lo": lo, "hi": hi, "must": list(must),
+            "seqs": [list(x) for x in seqs]}
+
+
+def listed(rt, gid, specs):
+    """slot over an explicit list of item lists ('a+ b+', ...)"""
+    return slot(rt, gid, [], 0, 0, seqs=[CAT.ix(x) for x in specs])
 
 
 def family(name, g, slots, arrs=(1,), split=1, splitmin=1, tagsets=((1,),), orders="id", nsh=1,
@@ -123,6 +139,9 @@ def families(tier):
                        arrs=(1,) if q else (1, 3), nsh=1 if q else 4))
     fams.append(family("walks-g2", 2, [slot("O", "o", [], 0, 0)], kind="walks", maxedges=2 if q else 3,
                        nsh=1 if q else 6))
+    # F1c: paths over the graph with unnamed edges (a supplied edge may be an unnamed one)
+    fams.append(family("flatO-g3", 3, [slot("O", "o", C.alph(SEGS3, pm) + C.alph(EDGES[2], pm), 1, 2 if q else 3)],
+                       nsh=1 if q else 2))
     # F2: a definition cut into 2..3 lines, every arrival order, tag sets
     sa = C.ix("a+ b+ e2+")
     ua = C.ix("a e2 b")
@@ -144,6 +163,17 @@ def families(tier):
                                       slot("O", "p", pa, 1, 2, must=C.ix("q+ q-")),
                                       slot("O", "q", qa, 1, 2)],
                        orders="id" if q else "all", nsh=2 if q else 16))
+    # F3c: TARGETED depth 3 on the chain of G3: innermost path with every end shape (segment / edge
+    # first x segment / edge last), referenced + and - on both nesting levels, followed or preceded
+    # by a segment or an edge
+    qs = ["a+ b+", "a+ b+ bc+", "a+ ab+", "ab+ b+", "ab+", "ab+ bc+"] + ([] if q else ["b+", "ab+ b+ c+"])
+    fol = ["c+", "bc+", "d+", "ad+"] + ([] if q else ["ce+", "e+"])
+    pre = ["d-", "ad-", "c-", "bc-"] + ([] if q else ["ce-", "e-"])
+    ps = ["q+", "q-"] + ["q%s %s" % (sg, x) for sg in pm for x in fol] + ["%s q%s" % (x, sg) for sg in pm for x in pre]
+    oy = ["c+", "ce+", "e+", "d+", "ad+", "c-"] + ([] if q else ["bc+", "d-", "ad-", "bc-", "ce-", "e-"])
+    os_ = ["p+", "p-"] + ["p%s %s" % (sg, y) for sg in pm for y in oy] + ([] if q else ["p%s c+ e+" % sg for sg in pm])
+    fams.append(family("nestO3-ends", 3, [listed("O", "o", os_), listed("O", "p", ps), listed("O", "q", qs)],
+                       orders="id" if q else "all", nsh=2 if q else 16))
     # cyclic / self-referential paths, sets listed in paths
     fams.append(family("cycO", 1, [slot("O", "o", C.ix("p+ a+ o+ u+") if q else C.ix("p+ p- a+ o+ u+"), 1, 2,
                                         must=C.ix("p+ p- o+ u+")),
@@ -155,8 +185,15 @@ def families(tier):
     fams.append(family("flatU-g1", 1, [slot("U", "u", C.alph(names1, ("",)), 1, 3 if q else 4)], nsh=2 if q else 4))
     fams.append(family("flatU-g2", 2, [slot("U", "u", C.alph(names2, ("",)), 1, 2 if q else 3)],
                        arrs=(1,) if q else (1, 2, 3, 4), nsh=1 if q else 4))
+    # F4b: sets over the graph with unnamed edges: every E line between induced segments counts
+    g3u = C.ix("a b c d e ce ad") if q else C.ix("a b c d e ab bc ad ce zz")
+    fams.append(family("flatU-g3", 3, [slot("U", "u", g3u, 1, 3 if q else 4)], arrs=(1,) if q else (1, 4),
+                       nsh=1 if q else 6))
+    fams.append(family("nestU-g3", 3, [slot("U", "u", C.ix("a b e v"), 1, 2 if q else 3, must=C.ix("v")),
+                                        slot("U", "v", C.ix("c ce d ad"), 1, 2 if q else 3)],
+                       orders="id" if q else "rev", arrs=(1,) if q else (1, 2, 3, 4), nsh=1 if q else 6))
     # F5: sets over paths and sets (paths with and without unique walk)
-    pl = C.ix("a+ b+ c- zz+ e1-")
+    pl = C.ix("a+ b+ c- zz+") if q else C.ix("a+ b+ c- zz+ e1-")
     fams.append(family("nestU-paths", 1, [slot("U", "u", C.ix("a p v"), 1, 2, must=C.ix("p v")),
                                            slot("U", "v", C.ix("b p e7"), 1, 2),
                                            slot("O", "p", pl, 1, 2)],
@@ -286,12 +323,13 @@ def _group(gfa, gid):
     return o
 
 
-def _oriented(xs):
-    return [{"id": _ref_name(x.line), "o": str(x.orient)} for x in xs]
+def _oriented(xs, pool):
+    return [{"id": _ref_name(x.line), "o": str(x.orient), "p": 0} for x in xs]
 
 
-def _plain(xs):
-    return [{"id": _ref_name(x), "o": ""} for x in xs]
+def _plain(xs, pool):
+    """members of a set answer: name and the written form of the line (pool index)"""
+    return [{"id": _ref_name(x), "o": "", "p": pool.add(project.abstract_text(str(x), "gfa2"))} for x in xs]
 
 
 QUERIES = {"O": ("captured_path", "captured_segments", "captured_edges"),
@@ -332,7 +370,7 @@ def run_case(gfapy, case, pool, cid):
                 q["rt"] = o.record_type
                 conv = _oriented if o.record_type == "O" else _plain
                 for k, attr in zip("abc", QUERIES[o.record_type]):
-                    r2, v = g.call(lambda: conv(getattr(o, attr)))
+                    r2, v = g.call(lambda: conv(getattr(o, attr), pool))
                     q[k] = {"r": r2, "w": v if r2 == "ok" else []}
             elif r != "ok":
                 q["rt"] = "O"
@@ -477,7 +515,7 @@ def run_families(fams, name):
         for sh in range(f["nsh"]):
             jobs.append((f, sh, "%s/%s-%d" % (name, f["name"], sh)))
     tlc.workdir(name)
-    heavy = ["nestO3", "nestO2", "nestU-cyc", "nestU-paths", "splitO", "splitU"]   # slow per case: start them first
+    heavy = ["nestO3", "nestO3-ends", "nestO2", "nestU-cyc", "nestU-paths", "splitO", "splitU"]   # slow per case: start them first
     jobs.sort(key=lambda j: heavy.index(j[0]["name"]) if j[0]["name"] in heavy else len(heavy))
     with MPool(processes=min(tlc.NCPU, len(jobs))) as mp:
         res = mp.map(shard_job, jobs, chunksize=1)
@@ -531,6 +569,7 @@ def check_c17(out, tier, seed):
                 exhaustive=True,
                 expectation_histogram=hist, per_family=perfam, rejected_by_family_and_clause=clause_hist,
                 bounds=[{k: (f[k] if k != "slots" else [{"line": s["rt"] + " " + s["id"], "len": [s["lo"], s["hi"]],
+                                                          "listed": [" ".join(CAT.item_text(i) for i in x) for x in s["seqs"]],
                                                           "alphabet": " ".join(CAT.item_text(i) for i in s["alph"]),
                                                           "must_list_one_of": " ".join(CAT.item_text(i) for i in s["must"])}
                                                          for s in f["slots"]])
@@ -634,7 +673,7 @@ def selftest():
         r["q"][0]["a"]["w"] = [x for x in r["q"][0]["a"]["w"] if x["id"] != "e6"]
 
     def extra_seg(r):
-        r["q"][0]["b"]["w"].append({"id": "c", "o": ""})
+        r["q"][0]["b"]["w"].append({"id": "c", "o": "", "p": pool.add(project.abstract_text(text_of(G1[2]), "gfa2"))})
 
     def reorder_items(r):
         e = [e for e in r["ev"] if e["gx"] == "ok"][-1]
